@@ -174,7 +174,10 @@ where
 
     // evaluate_poly_with_offset for blowups x offsets
     for (oi, (off, offv, oname)) in offsets::<Bf<E>>(&mut rng).into_iter().enumerate() {
-        for &bl in blowups {
+        // short polynomials over large domains (a periodic column on a constraint evaluation domain)
+        // get large blowups as well
+        let extra: &[usize] = if n <= 64 { &[128, 256, 512, 1024, 4096, 16384] } else { &[] };
+        for &bl in blowups.iter().chain(extra.iter()) {
             if (n * bl).trailing_zeros() > E::B::SPEC.two_adicity || n * bl > (1 << 17) {
                 continue;
             }
@@ -243,7 +246,7 @@ where
 
 pub fn run(args: &Args) {
     let mut rep = Report::new("C12", "c12",
-        "sizes 2^1..2^K for f64, f62, f128 base and f64^2, f64^3, f62^2, f128^2 coefficients; blowups 1..64; offsets {generator, 1, random, p-1}; every output compared with naive evaluation over the offset subgroup in natural order (all points up to the full-check limit, 69 spot points above); interpolation inverts; infer_degree on degrees {0,1,n/2,n-1}; digests of every output for cross-thread comparison; distinct = (field, size)");
+        "sizes 2^1..2^K for f64, f62, f128 base and f64^2, f64^3, f62^2, f128^2 coefficients; blowups 1..64 (and 128..16384 for sizes <= 64); offsets {generator, 1, random, p-1}; every output compared with naive evaluation over the offset subgroup in natural order (all points up to the full-check limit, 69 spot points above); interpolation inverts; infer_degree on degrees {0,1,n/2,n-1}; digests of every output for cross-thread comparison; distinct = (field, size)");
     let seed = args.seed();
     let max_k = args.u64("maxk", if args.thorough() { 16 } else { 12 }) as u32;
     let full_limit = args.u64("full", if args.thorough() { 4096 } else { 1024 }) as usize;
